@@ -513,7 +513,9 @@ def run(ch, idx, tier):
                         bounds = {"unit_cost_bounds": [0.0, 0.2][ch.choose("reconcile.uc", 2)], "baseline_bounds": [0.2, 0.0][ch.choose("reconcile.bl", 2)], "outcome_bounds": [0.2, 0.0][ch.choose("reconcile.out", 2)]}
                         if not any(bounds.values()) or (bounds["outcome_bounds"] and not bounds["baseline_bounds"]):
                             bounds["baseline_bounds"] = 0.2
-                        progset = at.reconcile(P, parset, progset, instr_start, max_time=0.01 * (5 + ch.choose("reconcile.iters", 30)), **bounds)[0]
+                        # the reconciliation year need not be one of the book's year columns (mid-year, or between sparse columns)
+                        rec_year = instr_start + [0.0, 0.0, 0.5, 1.0][ch.choose("reconcile.year_offset", 4)]
+                        progset = at.reconcile(P, parset, progset, rec_year, max_time=0.01 * (5 + ch.choose("reconcile.iters", 30)), **bounds)[0]
                     bump("sim_seconds_x1000", int(1000 * clock.elapsed))
                     op = f"reconcile({bounds})"
                 history.append(op)
